@@ -49,6 +49,7 @@ fn main() {
             "C19chain" => chaincheck::run("C19", &tier, seed),
             "C17chain" => chaincheck::run("C17", &tier, seed),
             "C12chain" => chaincheck::run("C12", &tier, seed),
+            "C07chain" => chaincheck::run("C07", &tier, seed),
             _ => checks::run(&args[2], &tier, seed),
         },
         "show" => checks::show(&args[2], &tier, seed),
